@@ -193,15 +193,25 @@ func rtnlExecute(m rtnetlink.Message, family uint16, flags netlink.HeaderFlags) 
 		return nil, err
 	}
 
+	out := msgs[:0]
 	for _, m := range msgs {
-		// The kernel omits the destination attribute of a default route, such
-		// as "unreachable default" which is anchored on loopback. Make it
-		// explicit so it is treated like any other loopback route.
-		rm, ok := m.(*rtnetlink.RouteMessage)
-		if ok && rm.Family == unix.AF_INET6 && rm.DstLength == 0 && len(rm.Attributes.Dst) == 0 {
-			rm.Attributes.Dst = net.IPv6zero
+		if rm, ok := m.(*rtnetlink.RouteMessage); ok && rm.Family == unix.AF_INET6 {
+			// The kernel omits the destination attribute of a default route,
+			// such as "unreachable default" which is anchored on loopback.
+			// Make it explicit so it is treated like any other loopback route.
+			if rm.DstLength == 0 && len(rm.Attributes.Dst) == 0 {
+				rm.Attributes.Dst = net.IPv6zero
+			}
+
+			// Routes within the IPv4-mapped range, such as the commonly
+			// installed "unreachable ::ffff:0.0.0.0/96", cannot be advertised.
+			if ip, ok := netip.AddrFromSlice(rm.Attributes.Dst); ok && ip.Is4In6() {
+				continue
+			}
 		}
+
+		out = append(out, m)
 	}
 
-	return msgs, nil
+	return out, nil
 }
